@@ -200,6 +200,19 @@ impl NumericParser {
     }
 }
 
+/// Verification hook: state of the parser as plain numbers
+#[cfg(sudachi_verif)]
+impl NumericParser {
+    pub fn verif_state(&self) -> serde_json::Value {
+        let num = |n: &StringNumber| n.verif_state();
+        serde_json::json!({
+            "dl": self.digit_length, "first": self.is_first_digit, "comma": self.has_comma, "hang": self.has_hanging_point,
+            "err": format!("{:?}", self.error_state),
+            "total": num(&self.total), "sub": num(&self.subtotal), "tmp": num(&self.tmp),
+        })
+    }
+}
+
 #[cfg(test)]
 mod tests {
     use super::*;
